@@ -14,15 +14,23 @@ def Sampling.swap : Sampling → Sampling
   | .right => .left
   | s => s
 
+/-- what the option selects (generated from `_sampling`: `Gen.samplingSel*`) -/
+def Sampling.sel : Sampling → Gen.SamplingSel
+  | .min => Gen.samplingSelMin
+  | .left => Gen.samplingSelLeft
+  | .right => Gen.samplingSelRight
+  | .step _ => Gen.samplingSelScalar
+
 /-- `_sampling((w1, w2), method)`; `none` = ValueError (an operand with fewer than two samples) -/
 def samplingOf (m : Sampling) (w1 w2 : List Rat) : Option Rat :=
-  match m with
-  | .min => match minDiff w1, minDiff w2 with
+  match m.sel with
+  | .minBoth => (match minDiff w1, minDiff w2 with
     | some a, some b => some (min a b)
-    | _, _ => none
-  | .left => minDiff w1
-  | .right => minDiff w2
-  | .step d => some d
+    | _, _ => none)
+  | .operand 0 => minDiff w1
+  | .operand 1 => minDiff w2
+  | .operand _ => none
+  | .given => (match m with | .step d => some d | _ => none)
 
 /-- the guard `tol` of `_interp_common` (generated from the source: `Gen.interpTol`) -/
 def gridTol (dw : Rat) : Rat := Gen.interpTol dw
@@ -66,7 +74,8 @@ def ufuncU (op : Rat → Rat → Rat) (s1 s2 : USpec) (m : Sampling) (fill : Rat
   let s2' := if s2.wu = s1.wu then s2 else toWave s1.wu s2
   match ufunc op ⟨s1.wave, s1.value⟩ ⟨s2'.wave, s2'.value⟩ m fill with
   | .error e => .error e
-  | .ok r => .ok ⟨r.wave, r.value, s1.wu, s1.vu⟩
+  | .ok r => .ok ⟨r.wave, r.value, if Gen.ufuncResultWaveUnitFromSelf then s1.wu else s2'.wu,
+                   if Gen.ufuncResultValueUnitFromSelf then s1.vu else s2'.vu⟩
 
 /-- scalar operand: element-wise on the unchanged grid -/
 def ufuncScalar (op : Rat → Rat → Rat) (s : Spectrum) (c : Rat) : Spectrum := ⟨s.wave, s.value.map (op · c)⟩
